@@ -72,6 +72,10 @@ def case_text(c):
             L.append("rc %d" % h["rc"])
         if h.get("destroyhang"):
             L.append("destroyhang 1")
+        if "life" in h:
+            L.append("life %d" % h["life"])
+        if h.get("ignoreterm"):
+            L.append("ignoreterm 1")
         for key in ("out", "err"):
             for at, d in h.get(key, []):
                 L.append("%s %d %s" % (key, at, d))
@@ -136,6 +140,8 @@ def _parse_line(line, res, steps, inline, cur):
         res["M"] = parse_kv(t[1:])
     elif tag == "H":
         res["header"] = parse_kv(t[1:])
+    elif tag == "T":
+        res.setdefault("finals", {})[t[1]] = parse_kv(t[3:])
     elif tag == "BUG":
         res["bug"] = line[4:]
 
@@ -284,6 +290,8 @@ def recount(res):
             infl += 1
             peak = max(peak, infl)
         elif ev[1] == "destroyEnd":
+            if len(ev) > 4 and ev[4].startswith("EINTR"):
+                continue                # waitpid interrupted: nothing was torn down
             dends[int(ev[2])] += 1
             infl -= 1
     return {"peak": peak, "connects": begins, "destroys": dends}
